@@ -82,7 +82,7 @@ class World:
         nat = {"days": native.days, "seconds": native.seconds, "total_seconds": native.total_seconds}
         if "microseconds" not in self.meths:
             nat["microseconds"] = native.microseconds
-        return Obj(_methods=self.meths, _props=self.props, _ctor=self.ctor, _native=native, _natives=nat, **{**self.fields, **fields})
+        return Obj(_methods=self.meths, _props=self.props, _ctor=self.ctor, _native=native, _natives=nat, _types=(_dt.timedelta,), **{**self.fields, **fields})
 
     def normalised(self, years: int, months: int, total_us: int) -> Obj:
         """the instance Duration.__new__ is specified to leave for `years`, `months` and a signed rest in microseconds (that
